@@ -1,7 +1,17 @@
 """Which functions (contracts) and which bounded stand-in decide each property."""
 
 W = "bibtexparser.writer."
+RE = "bibtexparser.middlewares.enclosing.RemoveEnclosingMiddleware."
+AE = "bibtexparser.middlewares.enclosing.AddEnclosingMiddleware."
 PROPS = {
+    "C10": {
+        "level": "other",
+        "modules": ["schema", "enclosing"],
+        "functions": [RE + "_strip_enclosing", AE + "__init__", AE + "_enclose"],
+        "lemmas": ["C10.reuse-restores", "C10.default-then-strip"],
+        "native": None,
+        "explanation": "proved: one-layer strip with recorded kind, reuse restores, default enclosing, integer rule, no exception (contracts on the real functions + two lemmas); bounded: re-parse of enclosed values (native layer)",
+    },
     "C06": {
         "level": "proof",
         "modules": ["schema", "writer"],
